@@ -49,8 +49,8 @@ def run_config(cfg, seed, cache):
     m._SC = ode_utils.compileCode(backend="lambda")
     m.parameters = theta_true
     x0 = X0[name]
-    t0 = 0.0
-    times = np.linspace(0.0, TEND[name], 9)[1:]
+    t0 = rng.choice([0.0, 0.0, 2.5, 20.0])          # the initial time of a loss object need not be zero
+    times = t0 + np.linspace(0.0, TEND[name], 9)[1:]
     grid = np.concatenate([[t0], times])
     obs = OBS[name]
     oi = [sy.states.index(s) for s in obs]
